@@ -19,7 +19,8 @@ weights, condition and input:
   `some (Masks.bnafTransformAndLogDet …)`;
 * `gen_bnaf_inverse_eq_model`, `gen_bnaf_invld_eq_model`: `inverse` / `inverse_and_log_det` for an arbitrary inverter;
 * `gen_block_linear_eq_model`: `unwrap` of the linear layer `block_autoregressive_linear` builds (generated masks, generated
-  `.unwrap()` bodies) is `BnafLayer.unwrapW` / `bias`.
+  `.unwrap()` bodies) is `BnafLayer.unwrapW` / `bias`;
+* `gen_block_logjac_eq_model` (over `ℝ`, well-shaped layer): the closure it returns, applied to that unwrapped layer, is `BnafLayer.logJac`.
 
 The networks the statements range over are `netOf …`: `unwrap(self)` of a network whose layers are the hand model's `BnafLayer`s
 (`linOf L` = unwrapped weight and bias) paired with ANY log-Jacobian closures `ljf L` that return `L.logJac` on the layer's own
@@ -386,6 +387,130 @@ theorem gen_bnaf_invld_eq_model (A : ℝ → ℝ × ℝ) (act : ℝ → ℝ) {di
   have hinv : (netOf A act dim bd Ls ljf condLinear inverter).inverter = inverter := rfl
   simp only [hinv, h, Option.bind_some]
   rfl
+
+
+section closure
+open BnafLd
+
+/-! ## the closure `linear_to_log_block_diagonal` -/
+
+theorem row_gather {β : Type} [Inhabited β] (r : Nat) (Wfull : List (List β)) :
+    ∀ (m : List Bool) (w : List β) (c0 : Nat), m.length = w.length →
+      (∀ j (hj : j < w.length), (Wfull.getD r []).getD (c0 + j) default = w[j]) →
+      ((m.zipIdx c0).filterMap fun (bc : Bool × Nat) => if bc.1 then some (r, bc.2) else none).map
+          (fun rc => (Wfull.getD rc.1 []).getD rc.2 default)
+        = (List.zip m w).filterMap fun p => if p.1 then some p.2 else none := by
+  intro m
+  induction m with
+  | nil => intro w c0 _ _; simp
+  | cons b m ih =>
+    intro w c0 hlen h
+    cases w with
+    | nil => simp at hlen
+    | cons x w =>
+      have h0 := h 0 (by simp)
+      simp only [Nat.add_zero, List.getElem_cons_zero] at h0
+      have ih' := ih w (c0 + 1) (by simpa using hlen) (by
+        intro j hj
+        have := h (j + 1) (by simpa using hj)
+        simpa [Nat.add_assoc, Nat.add_comm 1 j] using this)
+      cases b
+      · simp only [List.zipIdx_cons, List.zip_cons_cons, List.filterMap_cons, Bool.false_eq_true, if_false]; exact ih'
+      · simp only [List.zipIdx_cons, List.zip_cons_cons, List.filterMap_cons, if_true, List.map_cons, ih', h0]
+
+theorem pos_gather {β : Type} [Inhabited β] (Wfull : List (List β)) :
+    ∀ (mask : List (List Bool)) (Ws : List (List β)) (k : Nat), mask.length = Ws.length →
+      (∀ i (hi : i < mask.length) (hi' : i < Ws.length), mask[i].length = Ws[i].length) →
+      (∀ i (hi : i < Ws.length), Wfull.getD (k + i) [] = Ws[i]) →
+      ((mask.zipIdx k).flatMap fun (rowr : List Bool × Nat) =>
+          rowr.1.zipIdx.filterMap fun (bc : Bool × Nat) => if bc.1 then some (rowr.2, bc.2) else none).map
+          (fun rc => (Wfull.getD rc.1 []).getD rc.2 default)
+        = selectMask mask Ws := by
+  intro mask
+  induction mask with
+  | nil => intro Ws k _ _ _; simp [selectMask]
+  | cons m ms ih =>
+    intro Ws k hlen hrows hW
+    cases Ws with
+    | nil => simp at hlen
+    | cons w ws =>
+      have hk := hW 0 (by simp)
+      simp only [Nat.add_zero, List.getElem_cons_zero] at hk
+      have hrow := row_gather k Wfull m w 0 (hrows 0 (by simp) (by simp)) (by
+        intro j hj; rw [hk]; simp [hj])
+      have ih' := ih ws (k + 1) (by simpa using hlen)
+        (by intro i hi hi'; exact hrows (i + 1) (by simpa using hi) (by simpa using hi'))
+        (by intro i hi
+            have := hW (i + 1) (by simpa using hi)
+            simpa [Nat.add_assoc, Nat.add_comm 1 i] using this)
+      simp only [List.zipIdx_cons, List.flatMap_cons, List.map_append, hrow, ih', selectMask, List.zip_cons_cons]
+
+theorem flatten_length_const {β : Type} (b : ℕ) : ∀ (L : List (List β)), (∀ l ∈ L, l.length = b) → L.flatten.length = L.length * b := by
+  intro L
+  induction L with
+  | nil => simp
+  | cons l L ih =>
+    intro h
+    rw [List.flatten_cons, List.length_append, ih (fun l' hl' => h l' (by simp [hl'])), h l (by simp), List.length_cons]
+    ring
+
+
+theorem selectMask_length (b0 b1 n : ℕ) (W : List (List ℝ)) (hW : HasShape W (b0 * n) (b1 * n)) :
+    (selectMask (blockDiagMask b0 b1 n) W).length = b0 * b1 * n := by
+  have hmask := blockDiagMask_shape b0 b1 n
+  unfold selectMask
+  rw [List.flatMap_def]
+  set g : List Bool × List ℝ → List ℝ := fun mw => (List.zip mw.1 mw.2).filterMap fun p => if p.1 then some p.2 else none with hg
+  have hlen : ((List.zip (blockDiagMask b0 b1 n) W).map g).length = b0 * n := by simp [hmask.1, hW.1]
+  have hall : ∀ l ∈ (List.zip (blockDiagMask b0 b1 n) W).map g, l.length = b1 := by
+    intro l hl
+    obtain ⟨r, hr, rfl⟩ := List.getElem_of_mem hl
+    rw [hlen] at hr
+    have hrW : r < W.length := by rw [hW.1]; exact hr
+    have hrl : W[r].length = b1 * n := hW.2 _ (List.getElem_mem hrW)
+    have hrn : r / b0 < n := Nat.div_lt_of_lt_mul hr
+    have hm := blockDiagMask_getElem? b0 b1 n r (by rw [Nat.mul_comm]; exact hr)
+    have hm' : (blockDiagMask b0 b1 n)[r]'(by rw [hmask.1]; exact hr) = _ := Option.some.inj ((List.getElem?_eq_getElem _).symm.trans hm)
+    simp only [List.getElem_map, List.getElem_zip, hg, hm']
+    rw [filterMap_mask _ _ _ _ (by
+      rw [hrl]
+      have : n = r / b0 + 1 + (n - 1 - r / b0) := by omega
+      conv_lhs => rw [this]
+      ring)]
+    simp only [List.length_take, List.length_drop, hrl]
+    have : (r / b0 + 1) * b1 ≤ n * b1 := Nat.mul_le_mul_right _ hrn
+    have h2 : (r / b0 + 1) * b1 = r / b0 * b1 + b1 := by ring
+    have h3 : n * b1 = b1 * n := Nat.mul_comm _ _
+    omega
+  rw [flatten_length_const b1 _ hall, hlen]
+  ring
+
+/-- **generated closure `linear_to_log_block_diagonal` = hand model**: on the unwrapped linear map of a well-shaped layer the closure
+the generated `block_autoregressive_linear` returns (`jnp.where(block_diag_mask, size=…)`, `weight[idxs].reshape(n_blocks, *block_shape)`,
+`jnp.log`, over the GENERATED `block_diag_mask`) is `BnafLayer.logJac`. -/
+theorem gen_block_logjac_eq_model {K : Type} (W : Bw.World K ℝ) (key : K) (L : BnafLayer ℝ) (hL : BnafWellShaped L) :
+    (GenBnaf.blockAutoregressiveLinear W key L.n (L.b0, L.b1)).2 (linOf L) = L.logJac := by
+  have hsh := unwrapW_shape L hL
+  have hmask := blockDiagMask_shape L.b0 L.b1 L.n
+  have hpos := pos_gather L.unwrapW (blockDiagMask L.b0 L.b1 L.n) L.unwrapW 0 (by rw [hmask.1, hsh.1])
+    (by intro i hi hi'; rw [hmask.2 _ (List.getElem_mem hi), hsh.2 _ (List.getElem_mem hi')])
+    (by intro i hi; simp [hi])
+  have hlen := congrArg List.length hpos
+  rw [List.length_map, selectMask_length _ _ _ _ hsh] at hlen
+  unfold GenBnaf.blockAutoregressiveLinear GenBnaf.blockAutoregressiveLinear_linearToLogBlockDiagonal BnafLayer.logJac
+  simp only [MasksGenPf.gen_blockDiagMask, linOf, Bw.whereIdx, Bw.gather2, hlen, Nat.sub_self, List.replicate_zero,
+    List.append_nil]
+  rw [List.take_of_length_le (by rw [hlen]), hpos]
+  rfl
+
+
+/-- the closures of a network whose layers are all built by the generated `block_autoregressive_linear` satisfy the hypothesis
+`hljf` of the log-det theorems -/
+theorem generated_closures_ok {K : Type} (W : Bw.World K ℝ) (key : BnafLayer ℝ → K) {dim depth bd : ℕ} {Ls : List (BnafLayer ℝ)}
+    {condLinear : Option (List (List ℝ))} (hok : BnafOK dim depth bd Ls condLinear) :
+    ∀ L ∈ Ls, (fun L => (GenBnaf.blockAutoregressiveLinear W (key L) L.n (L.b0, L.b1)).2) L (linOf L) = L.logJac :=
+  fun L hL => gen_block_logjac_eq_model W (key L) L (hok.hws L hL).1
+end closure
 
 end real
 end BnafGenPf
